@@ -28,7 +28,7 @@ MUTS = {
     "reaping keeps one snapshot fewer than retain"),
  "c12-no-snapshot-fallback": ("C12", "replication.go", "lastIndex); err == ErrLogNotFound {\n		goto SEND_SNAP\n	} else if err != nil {", "lastIndex); err != nil {",
     "a follower that needs compacted entries is never sent a snapshot"),
- "c04-prev-ignores-snapshot": ("C04", "replication.go", "	} else if (nextIndex - 1) == lastSnapIdx {\n		req.PrevLogEntry = lastSnapIdx\n		req.PrevLogTerm = lastSnapTerm\n", "	} else if (nextIndex-1) == lastSnapIdx && false {\n		req.PrevLogEntry = lastSnapIdx\n		req.PrevLogTerm = lastSnapTerm\n",
+ "c04-prev-ignores-snapshot": ("C12", "replication.go", "	} else if (nextIndex - 1) == lastSnapIdx {\n		req.PrevLogEntry = lastSnapIdx\n		req.PrevLogTerm = lastSnapTerm\n", "	} else if (nextIndex-1) == lastSnapIdx && false {\n		req.PrevLogEntry = lastSnapIdx\n		req.PrevLogTerm = lastSnapTerm\n",
     "the leader does not take the previous entry from its snapshot record when the entry is compacted away"),
  "c02-startup-lastapplied-minus-one": ("C02", "api.go", "		// Update the lastApplied so we don't replay old logs\n		r.setLastApplied(snapshot.Index)", "		// Update the lastApplied so we don't replay old logs\n		r.setLastApplied(snapshot.Index - 1)",
     "after the start-up restore the entry at the snapshot index is applied a second time"),
